@@ -1099,12 +1099,14 @@ class Emitter:
 
     def bin_expr(self, op, ty, a, b):
         if ty[0] in ('double', 'float'):
-            o = {'fadd': '+', 'fsub': '-', 'fmul': '*', 'fdiv': '/'}.get(op)
+            o = {'fadd': 'SYMX_FADD', 'fsub': 'SYMX_FSUB', 'fmul': 'SYMX_FMUL', 'fdiv': 'SYMX_FDIV'}.get(op)
             if o is None:
                 if op == 'frem':
                     return 'fmod(%s, %s)' % (a, b)
                 raise NotImplementedError(op)
-            return '(%s %s %s)' % (a, o, b)
+            if ty[0] == 'float':
+                return '((float)%s((double)%s, (double)%s))' % (o, a, b) if False else '(%s %s %s)' % (a, {'fadd': '+', 'fsub': '-', 'fmul': '*', 'fdiv': '/'}[op], b)
+            return '%s(%s, %s)' % (o, a, b)
         w = self.width(ty)
         W = self.wide(w)
         if op in ('add', 'sub', 'mul', 'and', 'or', 'xor'):
@@ -1850,7 +1852,7 @@ class Emitter:
         if name.startswith('llvm.memmove'):
             return 'memmove(%s, %s, %s);' % (arg(0), arg(1), arg(2))
         if name.startswith('llvm.fmuladd') or name.startswith('llvm.fma.'):
-            return ret('(%s * %s + %s)' % (arg(0), arg(1), arg(2)))
+            return ret('SYMX_FADD(SYMX_FMUL(%s, %s), %s)' % (arg(0), arg(1), arg(2)))
         if name.startswith('llvm.fabs'):
             return ret('fabs(%s)' % arg(0))
         if name.startswith('llvm.sqrt'):
